@@ -26,7 +26,7 @@ var persistMutating = map[string]bool{
 	"CreateTemp": true, "WriteString": false,
 }
 
-type persistCall struct{ fn, a1, a2, ctx string }
+type persistCall struct{ fn, a1, a2, ctx, guard string }
 
 // persistConsts collects package-level string constants (name -> quoted literal).
 func persistConsts(p *pkgFiles) map[string]string {
@@ -118,6 +118,7 @@ func persistEnv(fd *ast.FuncDecl) map[string]ast.Expr {
 func persistCallsOf(fd *ast.FuncDecl, consts map[string]string) []persistCall {
 	env := persistEnv(fd)
 	var out []persistCall
+	guardNow := ""
 	find := func(n ast.Node, ctx string) {
 		ast.Inspect(n, func(m ast.Node) bool {
 			switch c := m.(type) {
@@ -131,7 +132,7 @@ func persistCallsOf(fd *ast.FuncDecl, consts map[string]string) []persistCall {
 				if id, ok := se.X.(*ast.Ident); !ok || id.Name != "os" || !persistMutating[se.Sel.Name] {
 					return true
 				}
-				pc := persistCall{fn: se.Sel.Name, ctx: ctx}
+				pc := persistCall{fn: se.Sel.Name, ctx: ctx, guard: guardNow}
 				if len(c.Args) > 0 {
 					pc.a1 = persistResolve(c.Args[0], env, consts, 0)
 				}
@@ -154,8 +155,28 @@ func persistCallsOf(fd *ast.FuncDecl, consts map[string]string) []persistCall {
 			return true
 		})
 	}
+	// guards: conditions of earlier `if … { …; return … }` statements (no else, not an error check) of the enclosing
+	// blocks: when a later call is reached, every one of them was false
+	isGuard := func(st *ast.IfStmt) (string, bool) {
+		if st.Else != nil || len(st.Body.List) == 0 {
+			return "", false
+		}
+		if _, ok := st.Body.List[len(st.Body.List)-1].(*ast.ReturnStmt); !ok {
+			return "", false
+		}
+		g := strings.Join(strings.Fields(src(st.Cond)), " ")
+		if st.Init != nil {
+			g = strings.Join(strings.Fields(src(st.Init)), " ") + "; " + g
+		}
+		if strings.Contains(g, "err") {
+			return "", false
+		}
+		return g, true
+	}
 	var walk func(list []ast.Stmt, ctx string)
 	walk = func(list []ast.Stmt, ctx string) {
+		saved := guardNow
+		defer func() { guardNow = saved }()
 		for _, s := range list {
 			switch st := s.(type) {
 			case *ast.IfStmt:
@@ -163,6 +184,14 @@ func persistCallsOf(fd *ast.FuncDecl, consts map[string]string) []persistCall {
 					find(st.Init, ctx)
 				}
 				find(st.Cond, ctx)
+				if g, ok := isGuard(st); ok {
+					walk(st.Body.List, ctx)
+					if guardNow != "" {
+						guardNow += " || "
+					}
+					guardNow += g
+					continue
+				}
 				cond := strings.Join(strings.Fields(src(st.Cond)), " ")
 				inner := "if " + cond
 				if ctx != "" {
@@ -277,6 +306,21 @@ func genPersist(hl, mb *pkgFiles, hdr, out string) {
 			fmt.Fprintf(&b, "(%s, %s, %s, %s)", leanStr(c.fn), leanStr(c.a1), leanStr(c.a2), leanStr(c.ctx))
 		}
 		b.WriteString("])")
+		if i < len(rows)-1 {
+			b.WriteString(",")
+		}
+		b.WriteString("\n")
+	}
+	b.WriteString("]\n\n")
+	b.WriteString("/-- For the same functions and calls (same order): the early-return guards that were passed when the call is reached\n")
+	b.WriteString("    (conditions of preceding `if c { …; return … }` statements of the enclosing blocks, error checks excluded; `||`-joined). -/\n")
+	b.WriteString("def persistGuards : List (String × List String) := [\n")
+	for i, r := range rows {
+		var gs []string
+		for _, c := range r.calls {
+			gs = append(gs, leanStr(c.guard))
+		}
+		fmt.Fprintf(&b, "  (%s, [%s])", leanStr(r.name), strings.Join(gs, ", "))
 		if i < len(rows)-1 {
 			b.WriteString(",")
 		}
